@@ -121,6 +121,7 @@ type p2pNode struct {
 	queued     map[string]int  // kind -> messages queued
 	queuedFrom map[string]int  // kind|from -> messages queued
 	seenFrom   map[string]bool // kind|from -> some message bearing that sender was delivered
+	genuine    map[string]bool // kind|from -> the genuine message of that member was delivered
 }
 
 type pool struct {
@@ -185,7 +186,7 @@ func newNode(c *ceremony, id int, h host.Host) *p2pNode {
 		a1c: make(chan *pb.FrostRound1Casts, 4), b1c: make(chan *pb.FrostRound1Casts, capB),
 		a1p: make(chan *pb.FrostRound1P2P, 4), b1p: make(chan *pb.FrostRound1P2P, capB),
 		a2c: make(chan *pb.FrostRound2Casts, 4), b2c: make(chan *pb.FrostRound2Casts, capB),
-		queued: map[string]int{}, queuedFrom: map[string]int{}, seenFrom: map[string]bool{}}
+		queued: map[string]int{}, queuedFrom: map[string]int{}, seenFrom: map[string]bool{}, genuine: map[string]bool{}}
 	nd.bcastCb = dkg.VerifNewBcastCallback(c.peerMap, nd.a1c, nd.a2c, c.t, c.nv)
 	nd.p2pCb = dkg.VerifNewP2PCallback(h, c.peerMap, nd.a1p, c.nv)
 	return nd
@@ -437,6 +438,19 @@ func (c *ceremony) genuineWellFormed(kind string, m proto.Message, src, j int) b
 	return true
 }
 
+// complete says whether every other member's genuine messages of the given kinds reached node j.
+func (c *ceremony) complete(j int, kinds ...string) bool {
+	nd := c.nd[j]
+	for _, k := range kinds {
+		for i := 1; i <= c.n; i++ {
+			if i != j && !nd.genuine[fmt.Sprintf("%s|%d", k, i)] {
+				return false
+			}
+		}
+	}
+	return true
+}
+
 // deliver performs op `d j kind from variant`.
 func (c *ceremony) deliver(run *hx.Run, j int, kind string, from int, variant string) string {
 	nd := c.nd[j]
@@ -464,9 +478,16 @@ func (c *ceremony) deliver(run *hx.Run, j int, kind string, from int, variant st
 				genuine = c.pool.r2[src]
 				return c.pool.r2[src] != nil
 			}
-		}, 30*time.Second)
+		}, func() time.Duration {
+			if kind == "c2" && !c.complete(src, "c1", "p") {
+				return 300 * time.Millisecond // the sender cannot have finished round 1 (replay of a reduced op list)
+			}
+			return 30 * time.Second
+		}())
 		if !ok {
-			run.Violate("frostp2p:ceremony_stalled", fmt.Sprintf("node %d: %s message of node %d never became available", j, kind, src))
+			if kind != "c2" || c.complete(src, "c1", "p") {
+				run.Violate("frostp2p:ceremony_stalled", fmt.Sprintf("node %d: %s message of node %d never became available", j, kind, src))
+			}
 			return "unavailable"
 		}
 		if !c.genuineWellFormed(kind, genuine, src, j) {
@@ -528,6 +549,9 @@ func (c *ceremony) deliver(run *hx.Run, j int, kind string, from int, variant st
 	invalid := !member || (variant != "g" && variant != "fv")
 	seenBefore := nd.seenFrom[fk]
 	nd.seenFrom[fk] = true
+	if member && variant == "g" {
+		nd.genuine[fk] = true
+	}
 	run.Count("d:" + kind + ":" + variant)
 	switch {
 	case err != nil:
@@ -586,12 +610,32 @@ func srcSet[T any](m map[key]T) string {
 func (c *ceremony) finish(run *hx.Run) string {
 	waited := make(chan struct{})
 	go func() { c.wg.Wait(); close(waited) }()
+	allDelivered := true
+	for j := 1; j <= c.n; j++ {
+		if !c.complete(j, "c1", "p", "c2") {
+			allDelivered = false
+		}
+	}
+	patience := 40 * time.Second
+	if !allDelivered {
+		patience = 300 * time.Millisecond // replay of a reduced op list: nodes legitimately still wait
+	}
 	select {
 	case <-waited:
-	case <-time.After(40 * time.Second):
-		run.Violate("frostp2p:ceremony_stalled", "nodes did not finish after all messages were delivered")
+	case <-time.After(patience):
+		if allDelivered {
+			run.Violate("frostp2p:ceremony_stalled", "nodes did not finish after all messages were delivered")
+		}
 		c.cancel()
 		<-waited
+	}
+	if !allDelivered {
+		var outs []string
+		for j := 1; j <= c.n; j++ {
+			outs = append(outs, fmt.Sprintf("%d:wait", j))
+		}
+		c.finished = true
+		return strings.Join(outs, " ")
 	}
 	c.finished = true
 	var outs []string
